@@ -70,7 +70,14 @@ def generate(seed, index, tier):
             'meta': {}}
     if rng.random() < 0.3:
         base['meta']['db_table'] = 'hand_t'
-    versions = [copy.deepcopy([base])]
+    # a second model from the evolution era that one of the remaining
+    # migrations deletes after the hand-over
+    doomed = None
+    if rng.random() < 0.3:
+        doomed = {'name': 'Extra', 'fields': [_field('x', rng, 'Integer')],
+                  'meta': {}}
+    also = [doomed] if doomed else []
+    versions = [copy.deepcopy([base] + also)]
     steps = []
     cur = copy.deepcopy(base)
     evo_fields = []
@@ -83,7 +90,7 @@ def generate(seed, index, tier):
         evo_fields.append(f)
         steps.append({'evos': [{'label': spec.evo_label(i),
                                 'mutations': [mut]}],
-                      'target': copy.deepcopy([cur])})
+                      'target': copy.deepcopy([cur] + also)})
     move_version = k + 1
     # migration chain
     files = {}
@@ -92,7 +99,9 @@ def generate(seed, index, tier):
         files['0001_initial'] = {'from': move_version, 'text':
                                  spec.render_migration(
                                      [], [{'op': 'CreateModel',
-                                           'model': base}], initial=True)}
+                                           'model': mm}
+                                          for mm in [base] + also],
+                                     initial=True)}
         names.append('0001_initial')
         for i, f in enumerate(evo_fields):
             n = '%04d_add_%s' % (i + 2, f['name'])
@@ -105,7 +114,8 @@ def generate(seed, index, tier):
         files['0001_initial'] = {'from': move_version, 'text':
                                  spec.render_migration(
                                      [], [{'op': 'CreateModel',
-                                           'model': copy.deepcopy(cur)}],
+                                           'model': mm} for mm in
+                                          [copy.deepcopy(cur)] + also],
                                      initial=True)}
         names.append('0001_initial')
     covered = list(names)
@@ -120,6 +130,11 @@ def generate(seed, index, tier):
         names.append(n)
         cur['fields'].append(copy.deepcopy(f))
         rem_fields.append(f)
+    if doomed:
+        n = '%04d_delete_extra' % (len(names) + 1)
+        files[n] = {'from': move_version, 'text': spec.render_migration(
+            [['va', names[-1]]], [{'op': 'DeleteModel', 'name': 'Extra'}])}
+        names.append(n)
     steps.append({'evos': [{'label': 'move', 'mutations': [
         {'op': 'MoveToDjangoMigrations', 'mark_applied': covered}]}],
         'target': copy.deepcopy([cur])})
@@ -135,7 +150,7 @@ def generate(seed, index, tier):
         cur['fields'].append(copy.deepcopy(f))
         steps.append({'evos': [], 'target': copy.deepcopy([cur])})
         final_version = move_version + 1
-    project = {'apps': {'va': {'v0': [base], 'steps': steps,
+    project = {'apps': {'va': {'v0': [base] + also, 'steps': steps,
                                'migrations': {'files': files}}},
                'order': ['va'], 'databases': ['default']}
     nsteps = len(steps)
@@ -172,6 +187,7 @@ def generate(seed, index, tier):
            'remaining': remaining, 'extra': extra,
            'move_version': move_version, 'final_version': final_version,
            'covered': covered, 'chain': names, 'start': start,
+           'doomed_model': bool(doomed),
            'hashseed': rng.choice([0, 0, 1])}
     if rng.random() < 0.25 and start != 'virgin':
         scn['fault'] = {'kind': 'sql_error', 'k': rng.randrange(0, 6),
@@ -196,6 +212,7 @@ def execute(scn):
     detail = dict(k=scn['k'], style=scn['style'],
                   remaining=scn['remaining'], extra=scn['extra'],
                   start=start, apps=P['order'],
+                  doomed_model=bool(scn.get('doomed_model')),
                   faulted=bool(scn.get('fault')))
     res = {'violations': viols, 'stats': stats, 'nontrivial': True,
            'shape': spec.canon([scn['k'], scn['style'], scn['remaining'],
@@ -404,6 +421,8 @@ def execute(scn):
             stats['with_evolution_only_app'] = 1
         if 'vc' in P['apps']:
             stats['with_migration_only_app'] = 1
+        if scn.get('doomed_model'):
+            stats['model_deleted_by_later_migration'] = 1
         dup_ct = [x for x in (post['book'].get('django_migrations') or [])
                   if x[1] == 'contenttypes']
         if len(dup_ct) != len({x[2] for x in dup_ct}):
